@@ -82,13 +82,13 @@ def cases(tier, seed):
             out.append({"kind": "basis", "cls": "basis:" + p, "shape": list(s), "path": p})
     out.append({"kind": "scalar_forms", "cls": "scalar_forms"})
     maxd = 8 if tier == "quick" else 24
-    nrand = 3 if tier == "quick" else 10
+    nrand = 3 if tier == "quick" else 30
     idx = 0
     for cls in gen.ENTRY_CLASSES:
         for rep in range(nrand):
             out.append({"kind": "random", "cls": "random:" + cls, "entry": cls, "maxd": maxd, "idx": idx, "seed": seed})
             idx += 1
-    for rep in range(24 if tier == "quick" else 120):
+    for rep in range(24 if tier == "quick" else 400):
         out.append({"kind": "laws", "cls": "laws", "idx": rep, "maxd": 6 if tier == "quick" else 12, "seed": seed})
     for rep in range(4 if tier == "quick" else 16):
         out.append({"kind": "layouts", "cls": "layouts", "idx": rep, "seed": seed})
